@@ -167,6 +167,9 @@ pub fn facts(sys: &System) -> String {
         let net = sys.network();
         writeln!(out, "NC {} {}", net.network_message_count(), net.traffic()).unwrap();
     }
+    if crate::mc::REDUCED.with(|c| c.get()) {
+        return out;
+    }
     // the process-visible projection (C04)
     let mut pv = String::new();
     for n in &nodes {
@@ -191,11 +194,17 @@ pub fn facts(sys: &System) -> String {
 pub struct Progs {
     pub defs: HashMap<u64, (u64, u64, usize)>,
     pub rows: HashMap<u64, Vec<Vec<Act>>>,
+    /// build Python twins (harness/py/script_proc.py) instead of Rust ScriptProcs
+    pub python: Option<std::rc::Rc<anysystem::python::PyProcessFactory>>,
+    /// Rust twin issues each row grouped by kind (the order the Python bridge relays)
+    pub grouped: bool,
+    /// (process, invocation number) at which the Python twin raises an exception
+    pub raise_at: Option<(u64, i64)>,
 }
 
 impl Progs {
     pub fn new() -> Self {
-        Progs { defs: HashMap::new(), rows: HashMap::new() }
+        Progs { defs: HashMap::new(), rows: HashMap::new(), python: None, grouped: false, raise_at: None }
     }
     pub fn parse_line(&mut self, kw: &str, t: &mut Toks) -> bool {
         match kw {
@@ -216,9 +225,19 @@ impl Progs {
         }
         true
     }
-    pub fn make(&self, p: u64) -> ScriptProc {
+    pub fn make(&self, p: u64) -> Box<dyn anysystem::Process> {
         let (cap, rt, nd) = self.defs.get(&p).cloned().unwrap_or((0, 0, 0));
-        ScriptProc::new(cap, self.rows.get(&p).cloned().unwrap_or_default(), rt, nd)
+        let rows = self.rows.get(&p).cloned().unwrap_or_default();
+        match &self.python {
+            Some(f) => {
+                let ra = match self.raise_at {
+                    Some((q, k)) if q == p => k,
+                    _ => -1,
+                };
+                Box::new(f.build((spec_json(cap, &rows, rt, ra),), 1))
+            }
+            None => Box::new(ScriptProc::new(cap, rows, if self.grouped { rt | 4 } else { rt }, nd)),
+        }
     }
 }
 
@@ -233,7 +252,7 @@ pub fn apply_op(sys: &mut System, progs: &Progs, kw: &str, t: &mut Toks) -> Stri
         "ADDPROC" => {
             let p = t.u64();
             let n = t.u64();
-            sys.add_process(&pname(p), Box::new(progs.make(p)), &nname(n));
+            sys.add_process(&pname(p), progs.make(p), &nname(n));
             "RET UNIT".to_string()
         }
         "SKEW" => {
